@@ -356,6 +356,41 @@ theorem tape_documented_form_accepted (a : Gen.Cli.Action) (act arc : Str) (srcs
   refine ⟨ns, h1, by rw [← had]; exact h2, ?_, by rw [← hsd]; exact h4⟩
   rw [← hadst, h3, if_neg (by simp [hconst])]
 
+open Moto.Argparse in
+/-- every tool's option strings are pairwise distinct, `-x` or `--word`, and abbreviations are off: no argument string is ever
+    ambiguous (`Argparse.classify_not_ambiguous`), the parser's "ambiguous option" error cannot occur -/
+theorem options_never_ambiguous : ∀ t ∈ Gen.Cli.tools, PlainOptions t := by decide +kernel
+
+open Moto.Argparse in
+/-- the string is exactly a help option of the parser: no value, not in the group -/
+def helpOK (u : Gen.Cli.Tool) (x : Str) : Bool :=
+  match classify u x with
+  | .opt a o none => o == x && a.nargs == 0 && !a.inGroup && a.dest == helpDest
+  | _ => false
+
+open Moto.Argparse in
+/-- **C19 (`--help` answers with status 0)**: for every tool, `-h` or `--help` as the first argument ends the run with the help text,
+    whatever follows on the line -/
+theorem help_answers : ∀ t ∈ Gen.Cli.tools, ∀ (h : Str) (rest : List Str), (h = Tape.str "-h" ∨ h = Tape.str "--help") →
+    cliParse t (h :: rest) = .help := by
+  intro t ht h rest hh
+  have hamb : tokenize t rest ≠ none := tokenize_isSome t (options_never_ambiguous t ht) rest
+  have hdec : ∀ u ∈ Gen.Cli.tools, helpOK u (Tape.str "-h") = true ∧ helpOK u (Tape.str "--help") = true := by decide +kernel
+  have hfacts : ∀ u ∈ Gen.Cli.tools, ∀ x, (x = Tape.str "-h" ∨ x = Tape.str "--help") →
+      ∃ a, classify u x = .opt a x none ∧ a.nargs = 0 ∧ a.inGroup = false ∧ a.dest = helpDest := by
+    intro u hu x hx
+    have hok : helpOK u x = true := by rcases hx with rfl | rfl; exact (hdec u hu).1; exact (hdec u hu).2
+    unfold helpOK at hok
+    split at hok
+    · rename_i a o hcl
+      simp only [Bool.and_eq_true, beq_iff_eq, Bool.not_eq_true'] at hok
+      obtain ⟨⟨⟨ho, hn⟩, hg⟩, hd⟩ := hok
+      exact ⟨a, by rw [hcl, ho], hn, hg, hd⟩
+    · simp at hok
+  obtain ⟨a, hc, hn, hg, hd⟩ := hfacts t ht h hh
+  have hne : h ≠ dashdash := by rcases hh with rfl | rfl <;> decide
+  exact help_first t h a rest hne hc hn hg hd hamb
+
 section examples
 open Moto.Argparse
 
